@@ -986,7 +986,14 @@ pub fn aig_doc_strategy(lit: u8, binary: bool) -> impl Strategy<Value = AigDoc> 
             0u64..=5,
         ), // I, L, A
         proptest::collection::vec(any::<u32>(), 40), // literal choices
-        (0usize..=3, 0usize..=2, 0usize..=2, prop_oneof![3 => 0usize..=2, 1 => 3usize..=5], 0usize..=2), // O, B, C, J, F counts
+        // O, B, C, J, F counts: small, or (one case in ~60 per section) more entries than a u8 counts
+        (
+            prop_oneof![60 => 0usize..=3, 1 => 256usize..=300],
+            prop_oneof![60 => 0usize..=2, 1 => 256usize..=300],
+            prop_oneof![60 => 0usize..=2, 1 => 256usize..=300],
+            prop_oneof![45 => 0usize..=2, 15 => 3usize..=5, 1 => 256usize..=270],
+            prop_oneof![60 => 0usize..=2, 1 => 256usize..=300],
+        ),
         proptest::collection::vec((any::<u8>(), any::<u16>(), name_strategy()), 0..=4),
         proptest::option::weighted(0.4, comment_strategy()),
         0u8..3, // max_var slack mode
@@ -1074,10 +1081,13 @@ pub fn aig_doc_strategy(lit: u8, binary: bool) -> impl Strategy<Value = AigDoc> 
             let bad = lits(nb, &mut pick);
             let constraints = lits(nc, &mut pick);
             let justice: Vec<Vec<u64>> = (0..nj)
-                .map(|_| {
+                .map(|k| {
                     // mostly 0..=2 conditions; sometimes more than a u8 / (rarely) a u16 can count
+                    // (large ones only among the first properties: the choices repeat cyclically)
                     let n = match pick(2000) {
-                        0 => 65536 + pick(3),
+                        _ if k >= 3 => pick(3),
+                        0 if k == 0 => 65536 + pick(3),
+                        0 => pick(3),
                         1..=50 => 250 + pick(20),
                         // (more than any fixed pre-allocation cap of a few hundred entries)
                         51..=60 => 1020 + pick(12),
